@@ -8,9 +8,15 @@ try:
 except Exception as e:
     ok = False; print('MANIFEST INVALID', str(e)[:300])
 es = json.load(open('/root/.vp/EVIDENCE.schema.json'))
+claimed = {c['property_id']: c['level_claimed']['category'] for c in json.load(open('/verif/MANIFEST.json'))['checks']}
 for f in sorted(glob.glob('/verif/evidence/*.json')):
     try:
-        jsonschema.validate(json.load(open(f)), es); print(f, 'ok')
+        ev = json.load(open(f))
+        jsonschema.validate(ev, es)
+        pid = f.split('/')[-1][:-5]
+        if claimed.get(pid) != ev.get('level'):
+            raise ValueError(f"level {ev.get('level')!r} differs from MANIFEST level_claimed.category {claimed.get(pid)!r}")
     except Exception as e:
         ok = False; print(f, 'INVALID', str(e)[:300])
+print('all evidence files valid' if ok else 'PROBLEMS FOUND')
 sys.exit(0 if ok else 1)
